@@ -465,6 +465,10 @@ func runC34(c *an.Ctx) {
 					case sn == "Message_Wantlist_Entry" && f.Name() == "Block":
 						call, ok := an.IsCallTo(s.Val, an.M(c34Cid, "Cid", "Bytes"))
 						if !ok {
+							if what, foreign := c34ForeignCall(s.Val); foreign {
+								c.Bad("O2", "R-TABLE", name, cons, s.Pos(), "wire field Block of a want-list entry is encoded with "+what+" instead of entry.Cid.Bytes(): the receiver cannot rebuild the same CID")
+								continue
+							}
 							undecided = append(undecided, undec{fn, cons})
 							continue
 						}
@@ -497,6 +501,10 @@ func runC34(c *an.Ctx) {
 							}
 						}
 						if !ok || pre == nil {
+							if what, foreign := c34ForeignCall(s.Val); !ok && foreign {
+								c.Bad("O2", "R-TABLE", name, "encode-Message_Block.Data+Prefix", s.Pos(), "v1 payload Data is encoded with "+what+" instead of the block's RawData(): the receiver rebuilds a block from other bytes")
+								continue
+							}
 							undecided = append(undecided, undec{fn, cons})
 							continue
 						}
@@ -529,6 +537,10 @@ func runC34(c *an.Ctx) {
 						}
 						k, okK := an.Recv(call).(*ssa.Extract)
 						v, okV := typ.Val.(*ssa.Extract)
+						if _, isConst := typ.Val.(*ssa.Const); okK && isConst {
+							c.Bad("O2", "R-TABLE", name, cons+"+Type", s.Pos(), "v1 block presence Type is a constant instead of the type stored for that CID: every presence is decoded as the same kind (HAVE / DONT_HAVE confused)")
+							continue
+						}
 						if !okK || !okV {
 							undecided = append(undecided, undec{fn, cons})
 							continue
@@ -960,6 +972,91 @@ func runC34(c *an.Ctx) {
 			}
 			c.Check(rs, "O2", "R-TABLE", an.FuncName(reset), "Reset-covers-"+roleOf(f), reset.Pos(), "Reset clears the field",
 				"impl.Reset does not reset field "+f.Name()+": a reused message carries stale "+f.Name()+" into the next send")
+		}
+	}
+
+	// ---------------------------------------------------------------- O2 framing: the length prefix
+	// is the size of the very message that is marshalled behind it (the reader takes exactly that
+	// many bytes as the message)
+	for _, fn := range p.PkgFuncs(c34Msg) {
+		for _, put := range an.Calls(fn, an.M("encoding/binary", "", "PutUvarint"), an.M("encoding/binary", "", "AppendUvarint")) {
+			args := an.Args(put)
+			if len(args) != 2 {
+				continue
+			}
+			isMarshal := func(v ssa.Value) (ssa.CallInstruction, bool) {
+				if e, ok := v.(*ssa.Extract); ok {
+					v = e.Tuple
+				}
+				call, ok := v.(*ssa.Call)
+				if !ok {
+					return nil, false
+				}
+				ci := an.Callee(call)
+				return call, strings.HasSuffix(ci.Pkg, "protobuf/proto") && strings.HasPrefix(ci.Name, "Marshal")
+			}
+			var marshalled []ssa.Value
+			for _, call := range an.AllCalls(fn) {
+				ci := an.Callee(call)
+				if strings.HasSuffix(ci.Pkg, "protobuf/proto") && strings.HasPrefix(ci.Name, "Marshal") {
+					a := an.Args(call)
+					if len(a) > 0 {
+						marshalled = append(marshalled, a[len(a)-1])
+					}
+				}
+			}
+			bad := ""
+			var strip func(v ssa.Value) ssa.Value
+			strip = func(v ssa.Value) ssa.Value {
+				for {
+					switch x := v.(type) {
+					case *ssa.Convert:
+						v = x.X
+						continue
+					case *ssa.ChangeType:
+						v = x.X
+						continue
+					}
+					return v
+				}
+			}
+			for _, r := range an.Roots(strip(args[1]), nil) {
+				r = strip(r)
+				if _, isK := an.ConstOf(r); isK {
+					bad = "a constant"
+					continue
+				}
+				if lc, isLen := an.IsBuiltinCall(r, "len"); isLen {
+					okSrc := true
+					for _, r2 := range an.Roots(lc.Call.Args[0], nil) {
+						if _, isM := isMarshal(r2); !isM {
+							okSrc = false
+						}
+					}
+					if !okSrc {
+						bad = "the length of " + an.PathOf(lc.Call.Args[0]) + ", which is not the marshalled message"
+					}
+					continue
+				}
+				if call, ok := r.(*ssa.Call); ok {
+					ci := an.Callee(call)
+					if strings.HasSuffix(ci.Pkg, "protobuf/proto") && ci.Name == "Size" && len(marshalled) > 0 {
+						same := false
+						sa := an.Args(call)
+						for _, m := range marshalled {
+							if len(sa) > 0 && an.SameObj(sa[len(sa)-1], m) {
+								same = true
+							}
+						}
+						if !same {
+							bad = "the size of a different message than the one marshalled"
+						}
+					}
+				}
+			}
+			c.Check(bad == "", "O2", "R-SIB", an.FuncName(fn), "length-prefix=size-of-marshalled-message", put.Pos(),
+				"the varint length prefix is the size of the message marshalled behind it",
+				"the frame's length prefix is "+bad+": the receiver cuts the frame at the wrong place and fails to parse (or mis-parses) the message")
 		}
 	}
 
@@ -1418,4 +1515,32 @@ func c34EntryEncoders(c *an.Ctx, fns []*ssa.Function) {
 		}
 	}
 	c.Min("O2 want-list entry literals in encoders", nLit, 1)
+}
+
+// c34ForeignCall: v is the result of a call of a function outside package message (a library
+// accessor): a value computed some other way than the table prescribes, not an unknown local shape.
+func c34ForeignCall(v ssa.Value) (string, bool) {
+	for {
+		if ct, ok := v.(*ssa.ChangeType); ok {
+			v = ct.X
+			continue
+		}
+		if cv, ok := v.(*ssa.Convert); ok {
+			v = cv.X
+			continue
+		}
+		break
+	}
+	if e, ok := v.(*ssa.Extract); ok {
+		v = e.Tuple
+	}
+	call, ok := v.(*ssa.Call)
+	if !ok {
+		return "", false
+	}
+	ci := an.Callee(call)
+	if ci.Name == "" || ci.Pkg == "" || ci.Pkg == c34Msg || ci.Pkg == "builtin" {
+		return "", false
+	}
+	return ci.String(), true
 }
